@@ -24,8 +24,10 @@ def eval_case(case):
     from pDESy.model.base_worker import BaseWorker
     out = []
     sub = case["subproject"]
-    su, pu = case["su"], case["pu"]
-    sub = dict(sub, unit=su)
+    su, pu = Fraction(case["su"]), Fraction(case["pu"])        # unit lengths in seconds (whole, or dyadic fractions such as 7.5)
+    if su.denominator == 1 and pu.denominator == 1:
+        su, pu = int(su), int(pu)
+    sub = dict(sub, unit=float(su) if isinstance(su, Fraction) else su)
     sim.set_ranks(sub)
     sb = sim.build(sub)
     op = sub["ops"][0]
@@ -59,7 +61,7 @@ def eval_case(case):
                     sb2.project.simulate(**sim.sim_kwargs(op))
                     sb2.project.write_simple_json(path2)
                     st.set_all_attributes_from_json(file_path=path2, remove_absence_time_list=not case["remove_abs"])
-                    st.set_work_amount_progress_of_unit_step_time(datetime.timedelta(seconds=pu))
+                    st.set_work_amount_progress_of_unit_step_time(datetime.timedelta(seconds=float(pu)))
             finally:
                 os.unlink(path2)
             sim.set_ranks(sub)
@@ -72,7 +74,7 @@ def eval_case(case):
                 st.set_all_attributes_from_json(remove_absence_time_list=bool(case["remove_abs"]))
         wl = [w for w in wl if "not simulated" in str(w.message)]      # the refusal warning (not e.g. ResourceWarning)
         cfg_out = {"status": status, "time": d_full, "abs": list(op.get("abs", [])), "remove": bool(case["remove_abs"]),
-                   "su": su, "pu": pu, "warned": bool(wl)}
+                   "su": float(su) if isinstance(su, Fraction) else su, "pu": float(pu) if isinstance(pu, Fraction) else pu, "warned": bool(wl)}
         if status != 1:
             cfg_out.update(work=C.q_str(C.frac(st.default_work_amount)), rate=C.q_str(C.frac(st.work_amount_progress_of_unit_step_time)))
             if not wl:
@@ -117,9 +119,9 @@ def eval_case(case):
             if st2.default_work_amount != d2:
                 out.append(O.V("work amount of a second task configured from the same file is not the sub-project's duration",
                                "C20/duration-again", (st2.default_work_amount, d2, d_full, n_abs, flag)))
-        punit = datetime.timedelta(seconds=pu)
+        punit = datetime.timedelta(seconds=float(pu))
         st.set_work_amount_progress_of_unit_step_time(punit)
-        r = Fraction(pu, su)
+        r = Fraction(pu) / Fraction(su)
         if C.on_grid(r, 20):
             cfg_out.update(work=C.q_str(C.frac(st.default_work_amount)), rate=C.q_str(C.frac(st.work_amount_progress_of_unit_step_time)))
             summary["cfg"] = cfg_out
@@ -155,11 +157,11 @@ def eval_case(case):
         pabs = case["parent_abs"]
         with warnings.catch_warnings():
             warnings.simplefilter("ignore")
-            parent.simulate(absence_time_list=list(pabs), max_time=math.ceil(Fraction(d) * su / pu) + 60)
+            parent.simulate(absence_time_list=list(pabs), max_time=math.ceil(Fraction(d) * Fraction(su) / Fraction(pu)) + 60)
         log = [int(s) for s in st.state_record_list]
         work_steps = [k for k, s in enumerate(log) if s == 2]
-        N = math.ceil(Fraction(d) * su / pu)
-        summary.update({"d": d, "su": su, "pu": pu, "N": N, "log": log[:40]})
+        N = math.ceil(Fraction(d) * Fraction(su) / Fraction(pu))
+        summary.update({"d": d, "su": float(su), "pu": float(pu), "N": N, "log": log[:40]})
         if int(parent.status) != 1:
             out.append(O.V("parent project did not finish", "C20/parent-failed", summary))
         else:
@@ -180,8 +182,8 @@ def eval_case(case):
                 out.append(O.V("a sub-project task holds a worker", "C20/worker", summary))
     finally:
         os.unlink(path)
-    return {"violations": out, "sig": (d_full, n_abs, su, pu, bool(case["remove_abs"]), len(case["pre"]), tuple(case["pre_kinds"]), bool(case["parent_abs"])),
-            "hist": {"cases": 1, "dyadic_ratio": int(C.on_grid(Fraction(pu, su), 20))}, "nontrivial": d_full >= 1, "summary": summary}
+    return {"violations": out, "sig": (d_full, n_abs, float(su), float(pu), bool(case["remove_abs"]), len(case["pre"]), tuple(case["pre_kinds"]), bool(case["parent_abs"])),
+            "hist": {"cases": 1, "dyadic_ratio": int(C.on_grid(Fraction(pu) / Fraction(su), 20))}, "nontrivial": d_full >= 1, "summary": summary}
 
 
 def gen_cases(rng, n):
@@ -194,6 +196,8 @@ def gen_cases(rng, n):
         o["max_time"] = 60
         c["ops"] = [o]
         units = [15, 30, 60, 120, 240, 480] if rng.random() < 0.8 else [20, 60, 180, 45, 100]
+        if rng.random() < 0.1:
+            units = [7.5, 15, 30, 60, 3.75, 0.5, 120]        # fractions of a second: a unit length is a timedelta, not a count of seconds
         npre = rng.choice([0, 1, 1, 2])
         cases.append({"subproject": c, "su": rng.choice(units), "pu": rng.choice(units), "remove_abs": rng.random() < 0.5,
                       "reconf_su": rng.choice(units) if rng.random() < 0.2 else None,
